@@ -113,6 +113,9 @@ class Init:
                 "sect_style": rng.choice(["plain", "plain", "plain", "indented", "tight", "quoted_keys", "tabs"]),
                 # leftovers of an interrupted earlier run or of an editor: not project files, must not matter
                 "latin1": rng.random() < 0.3,
+                # fidelity: the whole sequence as real `python -m bumpver` processes, also with assert statements compiled
+                # away (python -O / PYTHONOPTIMIZE, as some deployments set it globally)
+                "child_opt": rng.choice(["", "1", "2"]) if rng.random() < (0.03 if tier == "quick" else 0.004) else None,
                 "stale": rng.choice([None, None, None, ["bumpver.toml.tmp"], ["setup.cfg.tmp", "pyproject.toml.tmp"],
                                      ["bumpver.toml.bak", "pyproject.toml~"], [".bumpver.toml.swp", "pycalver.toml.tmp"]])}
 
@@ -182,8 +185,17 @@ class Init:
         ctx.sample = {"campaign": self.name, "layout": {k: v for k, v in layout.items() if v != "absent"}, "now": now.isoformat()}
         facts = {"sectioned": sorted(sectioned), "present": sorted(files)}
 
+        child = case.get("child_opt") if not case.get("vcs") else None
+        if child is not None:
+            import datetime as _dt
+            year = _dt.datetime.now(_dt.timezone.utc).year      # a real process reads the real clock
+            ctx.probe("child_process_sequence" + ("_optimized" if child else ""))
+
         def run(argv):
-            res = invoker.invoke(d, argv, today, shim(), None, now=now)
+            if child is not None:
+                res = invoker.invoke_child(d, argv, extra_env={"PYTHONOPTIMIZE": child} if child else None)
+            else:
+                res = invoker.invoke(d, argv, today, shim(), None, now=now)
             ctx.invocations += 1
             ctx.event(argv, res.exit_code, invoker.digest_snapshot(res.after))
             return res
